@@ -164,6 +164,7 @@ def helper_symbolic(cfg) -> Dict[str, Any]:
             cb = helper_concrete(cfg, p)
             res['candidates'].append({'symbolic': r['bad'], 'inputs': {'p': p, 'n': n}, 'replay': {'bad': cb, 'impl': None, 'ref': None}})
     res['exhausted'] = ctx.exhausted
+    res['smt_samples'] = list(ctx.samples)
     res['stats'] = ctx.stats.as_dict()
     res['assumptions'] = list(ctx.assumptions)
     res['shim_calls'] = dict(_FSHIM.calls)
@@ -379,6 +380,7 @@ def explore16(cfg: dict) -> dict:
             cb = eval_scenario(cfg, ConSrc(inp), False)
             res['candidates'].append({'symbolic': bad, 'inputs': inp, 'replay': {'bad': cb, 'impl': None, 'ref': None}})
     res['exhausted'] = ctx.exhausted
+    res['smt_samples'] = list(ctx.samples)
     res['stats'] = ctx.stats.as_dict()
     res['assumptions'] = list(ctx.assumptions)
     res['shim_calls'] = {}
